@@ -15,9 +15,9 @@ PID = "C11"
 
 
 def cfgs(tier):
-    c = [("symL_2x2", 2, 2, True), ("full_2x3", 2, 3, False), ("symL_3x3", 3, 3, True)]
+    c = [("symL_2x2", 2, 2, True), ("full_2x3", 2, 3, False), ("symL_3x3", 3, 3, True), ("full_4x3", 4, 3, False)]
     if tier == "thorough":
-        c += [("full_3x5", 3, 5, False), ("symL_2x4", 2, 4, True), ("full_4x3", 4, 3, False)]
+        c += [("full_3x5", 3, 5, False), ("symL_2x4", 2, 4, True), ("symL_5x3", 5, 3, True), ("full_2x7", 2, 7, False)]
     return c
 
 
